@@ -136,12 +136,17 @@ class HeapClass:
 
 
 GHOSTS = {}
+OBSERVERS = set()
 
 
-def ghostvar(name, ty):
+def ghostvar(name, ty, observer=False):
     """ghost state (effect trace, clock, counters): symbolic at function entry, updated only through
-    contracts that list 'ghost:<name>' under modifies"""
+    contracts that list 'ghost:<name>' under modifies.  observer=True: a ghost that only exposes a value
+    computed inside a callee (e.g. whether the last parsed message was protected); it is not part of the
+    state that frame conditions and nothing_changed() speak about"""
     GHOSTS[name] = ty
+    if observer:
+        OBSERVERS.add(name)
 
 
 def heapclass(pyclass, invariant=None, **fields):
